@@ -323,7 +323,11 @@ func c01TimeLadder(c *core.Ctx) {
 		form{"<?php '", "ab", "';"}, form{"<?php \"", "a$b ", "\";"}, form{"<?php /*", "ab\n", "*/"}, form{"<?php $", "ab", ";"}, form{"<?php ", "12", ";"},
 		form{"<?php 0x", "1f", ";"}, form{"<?php <<<A\n", "a $b\n", "A;\n"}, form{"<?php <<<'", "Ab", "'\nx\n"}, form{"<?php \"$a[", "12", "]\";"}, form{"", "ab\n", "<?php ;"},
 		form{"<?php __halt_compiler();", "ab\n", ""}, form{"<?php a", "\\a", ";"}, form{"<?php $a", "->b", ";"}, form{"<?php $a = ", "1 + ", "1;"}, form{"<?php $a = ", "[", "1;"},
-		form{"<?php f(", "1, ", "1);"}, form{"<?php $a", "[1]", ";"}, form{"<?php ", "if ($a) ", ";"}, form{"<?php ", "{", ""}, form{"<?php ", "#c\r", ""})
+		form{"<?php f(", "1, ", "1);"}, form{"<?php $a", "[1]", ";"}, form{"<?php ", "if ($a) ", ";"}, form{"<?php ", "{", ""}, form{"<?php ", "#c\r", ""},
+		// one long run of one character inside each string mode (helpers that look back from every byte)
+		form{"<?php \"$a ", "\\\\", "\";"}, form{"<?php `$a ", "\\\\", "`;"}, form{"<?php <<<A\n$a ", "\\\\", "\nA;\n"}, form{"<?php '", "\\\\", "';"},
+		form{"<?php \"$a ", "$", "\";"}, form{"<?php \"$a ", "{", "\";"}, form{"<?php <<<A\n", "A", "\nA;\n"}, form{"<?php <<<A\n", " ", "A;\n"}, form{"<?php ", "?", ";"},
+		form{"<?php ", "<", ";"}, form{"", "<", ""}, form{"<?php /*", "*", "/"}, form{"<?php \"$a[", "]", "\";"}, form{"<?php $a", "-", ";"})
 	for _, fm := range forms {
 		pre, u, post := fm.pre, fm.unit, fm.post
 		for _, v := range []*version.Version{drive.V74, drive.V56} {
@@ -369,7 +373,7 @@ func init() {
 		Prop: "C01", Level: "exploration", Exhaust: true, QuickSecs: 400, ThorSecs: 3000,
 		Rule: "A: every string of <= 3 symbols over the 70-symbol alphabet (all byte literals of scanner.rl + class representatives + mode-switching fragments + hex, binary and overflowing number forms) from each of 15 start contexts (one per scanner machine) under 7.4/5.6/7.2 x {callback, nil}; thorough: one more ring (4 symbols) under 7.4; <= 4 (thorough 5) symbols over the 28-symbol core alphabet; <= 2 core symbols under all 12 versions x {callback, nil}. " +
 			"B: every byte-prefix of every rule-level (thorough: 2-path) corpus program of both grammars in three line-terminator layouts and of every special, with and without callback; grammar-action error programs under all versions x {callback, nil}. " +
-			"C: every (LALR state, terminal) cell of both automata — access sentence + terminal + tail — i.e. every configuration in which yacc error recovery can start. D: scaling ladder (64 vs 512 copies of 19 units): scanner/parser steps must grow linearly; CPU-time ladder (4000 vs 32000 copies of 28 units: lines, one very long token of each kind, deep nesting and long chains; minimum of 3 runs): at most 40x the CPU time for 8x the input. " +
+			"C: every (LALR state, terminal) cell of both automata — access sentence + terminal + tail — i.e. every configuration in which yacc error recovery can start. D: scaling ladder (64 vs 512 copies of 19 units): scanner/parser steps must grow linearly; CPU-time ladder (4000 vs 32000 copies of 42 units: lines, one very long token of each kind, long runs of one character in each string mode, deep nesting and long chains; minimum of 3 runs): at most 40x the CPU time for 8x the input. " +
 			"Oracle: no panic escapes Parse; scanner restarts + Lex calls <= 64+16*len (deterministic hang detector); input buffer unchanged — the parse runs on a write-protected mapping, so any store into the input faults, also one that rewrites the same bytes; err == nil. non-trivial/distinct = distinct input byte strings",
 		Assume: []string{"a scanner that makes progress consumes at least one byte per loop restart (measured maximum on valid code is reported as max_steps_per_input_byte_x100)"},
 		Run:    c01Run,
